@@ -33,7 +33,7 @@ def effect_nodes(ctx, f, cfg, summ, exclude_calls=()):
     for n in cfg.live_nodes():
         if n.kind in ("entry", "exit", "excexit", "br", "handler", "with_exit"):
             continue
-        effs = ["%s %s" % (e.kind, e.what) for e in primitive_effects(ctx.facts, f, n, aliases)]
+        effs = ["%s %s" % (e.kind, e.what) for e in primitive_effects(ctx.facts, f, n, aliases, summ.wide)]
         for c in calls_in(n):
             if isinstance(c.func, ast.Attribute) and c.func.attr in exclude_calls:
                 continue
@@ -57,7 +57,7 @@ def run(ctx):
     ctx.not_decided += ["that callees are effect-free before their own raises (Composite._post_setter assigns constituents one by one)",
                         "equality of the complete observable state before/after (needs execution)"]
     ctx.assumptions.append("frozen exclusion: the scheduling done inside _resolve_ref for coroutine references (there is no current value to reject)")
-    summ = EffectSummaries(ctx.facts, depth=3 if ctx.tier == "quick" else 5)
+    summ = EffectSummaries(ctx.facts, depth=3 if ctx.tier == "quick" else 5, wide=True)
 
     f = ctx.repo.method(PARAMETER, "__set__")
     cfg = ctx.facts.cfg(f)
